@@ -152,6 +152,15 @@ Theorem C06_lexer_ctx_sim_html_partial : lexer_ctx_sim_html_statement.
 Proof. exact lexer_ctx_sim_html. Qed.
 Print Assumptions C06_lexer_ctx_sim_html_partial.
 
+(* the sub-fragment is a part of the corrected fragment: the corrected statement holds of every
+   source on which the reference with opt_html stays inside its fragment *)
+From Verif Require Import RefIncl_proofs.
+Theorem C06_lexer_ctx_sim_strict_on_html_partial :
+  forall (src : bytes) w, is_bytes src = true -> ref_contexts2 opt_html src = Some w ->
+    ref_contexts2 opt_strict src = Some w /\ ctx_sim_ok2 opt_strict src = true.
+Proof. exact strict_on_html. Qed.
+Print Assumptions C06_lexer_ctx_sim_strict_on_html_partial.
+
 (* non-vacuity: a source of the sub-fragment with a show in a quoted attribute value and one in text,
    <p title="{{ s }}">x{{ s }} *)
 Example C06_lexer_ctx_sim_html_example :
